@@ -104,7 +104,8 @@ def _prune(parent, keep):
 def build(fam, archset="x86", extra_flags=(), main="main.cpp", with_scalar=True, compiler="g++", extra_srcs=(), link_flags=()):
     """Build harness binary for one family. archset: 'x86' (20 native architectures [+ scalar]) or 'emu'
     (emulated<128/256>, own binary because XSIMD_WITH_EMULATED changes generic kernels of the others)."""
-    flags = BASE_FLAGS + list(extra_flags)
+    flags = BASE_FLAGS + list(extra_flags) + os.environ.get("VERIF_EXTRA_CXXFLAGS", "").split()   # e.g. --coverage (tools/coverage.py)
+    link_flags = list(link_flags) + os.environ.get("VERIF_EXTRA_LDFLAGS", "").split()
     compiler = os.environ.get("VERIF_CXX", compiler)          # compiler flavour (e.g. clang++-14): the harness is header-only code + wrappers
     archs = list(X86_ARCHS) if archset == "x86" else list(EMU_ARCHS) if archset == "emu" else []
     if archset == "emu":
@@ -164,6 +165,7 @@ def build_single(src, tag, flags, compiler="g++"):
     hh = hashlib.sha256()
     hh.update(repo_hash().encode())
     hh.update(_hash_tree(HARNESS, (".hpp", ".cpp", ".inc")).encode())
+    flags = list(flags) + os.environ.get("VERIF_EXTRA_CXXFLAGS", "").split()
     hh.update(" ".join([compiler, src, tag] + list(flags)).encode())
     parent = os.path.join(BUILD, "h", "single_" + slug(tag))
     out = os.path.join(parent, hh.hexdigest()[:16])
